@@ -48,7 +48,8 @@ broadcast_var_set (SF_PRIVATE *psf, const SF_BROADCAST_INFO * info, size_t datas
 	if (info == NULL)
 		return SF_FALSE ;
 
-	if (bc_min_size (info) > datasize)
+	/* The fixed part must be there before coding_history_size can be looked at. */
+	if (datasize < offsetof (SF_BROADCAST_INFO, coding_history) || bc_min_size (info) > datasize)
 	{	psf->error = SFE_BAD_BROADCAST_INFO_SIZE ;
 		return SF_FALSE ;
 		} ;
